@@ -19,6 +19,7 @@ Inductive op :=
 | OUnjail (i : Z)
 | OExtJail (i : Z)
 | OJail (i : Z) (ok : bool)
+| OTick (dh dt : Z)                           (* clock advance after an [OEnd 0 0 …] followed by jailings of later end-blockers *)
 | OEnd (dh dt : Z) (obs : option (list (bool * option Z * Z * Z)))
          (* per validator: jailed, grace start, log duration, jailed until; None = same as at the previous end-block *)
        (minver : Z) (blob : option (option (list Z))) (* stored v2 blob; None = same as before *)
@@ -77,6 +78,7 @@ Definition cstep (addrs : list (list Z)) (acc : option cst) (o : op) : option cs
     | OExtJail i => ret (step Z.ltb s (ExtJail (addr_of addrs i)))
     | OJail i ok =>
         let '(s', r) := jail s (addr_of addrs i) in if Bool.eqb r ok then ret s' else None
+    | OTick dh dt => ret (step Z.ltb s (Tick dh dt))
     | OEnd dh dt obs mv blob hl =>
         let '(s1, r) := end_block s in
         let obs' := match obs with Some x => x | None => lo end in
